@@ -514,6 +514,40 @@ REGION_B = '''          - name: B
                     guard: (g >> 2) & 1 == 1
 '''
 
+IDLE_VS_ENTRY = '''statechart:
+  name: a state whose idle time differs from its entry time, with contracts on its transitions and on itself
+''' + PRE + '''  root state:
+    name: root
+    initial: a
+    states:
+      - name: a
+        contract:
+          - always: after(0) and idle(0)
+          - after: idle(0) or x >= 0
+        transitions:
+          - event: e0
+            action: x = x + 1
+            contract:
+              - after: idle(1) or x >= 0
+              - always: after(1) or x >= 0
+          - target: b
+            event: e1
+            guard: idle(2) or after(4)
+            contract:
+              - before: x >= 0
+              - after: idle(0) or x >= 0
+              - always: after(0) or x >= 0
+      - name: b
+        contract:
+          - before: x >= 0
+        transitions:
+          - target: a
+            event: e1
+            guard: after(1) and idle(1)
+            contract:
+              - after: idle(0) or x >= 0
+'''
+
 
 def deep_chain_yaml(depth=12):
     """root > line > {idle, s1 ... nested `depth` levels (level2..), H* deep history, h shallow history}; names like s1 / s10
@@ -579,6 +613,10 @@ def entries():
         out.append(('nondet_and_conflict_' + nm, NONDET_AND_CONFLICT % dict(regions=regs.rstrip('\n')), None,
                     [('exec',), ('bits', 4095), q('e'), ('exec',), ('bits', 4094), q('e'), ('exec',), ('bits', 4091), q('e'), ('exec',),
                      ('bits', 4092), q('e'), ('exec',), ('bits', 4088), q('e'), ('exec',), ('exec',)]))
+
+    out.append(('idle_vs_entry', IDLE_VS_ENTRY, None,
+                [('exec',), ('clock', 5), q('e0'), ('exec',), ('clock', 3), q('e1'), ('exec',), ('clock', 2), q('e1'), ('exec',), ('clock', 1),
+                 q('e0'), ('exec',), q('e0'), ('exec',), ('clock', 7), q('e1'), ('exec',), ('exec',)]))
 
     def add_noncontiguous(sc):
         from sismic.model import Transition
